@@ -12,6 +12,7 @@ use std::collections::btree_set;
 verus! {
 global size_of usize == 8;
 //@include prelude/std_contracts.rs
+//@include prelude/iter_wrappers.rs
 //@include prelude/c13left_std.rs
 
 // ---- SplitMix64 (seeds the xoshiro state) ----
